@@ -16,6 +16,8 @@ use crate::generate::name::ToPy;
 use crate::generate::result::{GenResult, UnimplementedErr};
 use crate::{ASTTy, Context};
 
+const NO_CLASS_NAME: &str = "class or parent named like a type constructor";
+
 /// Desugar a class.
 ///
 /// If a class has inline arguments (arguments next to class), then we create a
@@ -44,7 +46,16 @@ pub fn convert_class(ast: &ASTTy, imp: &mut Imports, state: &State, ctx: &Contex
             let parents = isa
                 .as_ref()
                 .map_or_else(Vec::new, |isa| vec![isa.to_py(imp)]);
-            extract_class(ty, body, &[], &parents, imp, &state.in_interface(true), ctx)
+            extract_class(
+                ast,
+                ty,
+                body,
+                &[],
+                &parents,
+                imp,
+                &state.in_interface(true),
+                ctx,
+            )
         }
         NodeTy::Class {
             ty,
@@ -54,6 +65,7 @@ pub fn convert_class(ast: &ASTTy, imp: &mut Imports, state: &State, ctx: &Contex
         } => {
             let parents = convert_vec(parents, imp, state, ctx)?;
             extract_class(
+                ast,
                 ty,
                 body,
                 args,
@@ -85,7 +97,9 @@ pub fn convert_class(ast: &ASTTy, imp: &mut Imports, state: &State, ctx: &Contex
 /// - The class has a body and one or more parents has class arguments
 ///
 /// If creating a new constructor, it is inserted after the last found variable.
+#[allow(clippy::too_many_arguments)]
 fn extract_class(
+    ast: &ASTTy,
     ty: &StringName,
     body: &Option<Box<ASTTy>>,
     args: &[ASTTy],
@@ -162,10 +176,10 @@ fn extract_class(
         .map(|parent| match parent.clone() {
             Core::FunctionCall { function, .. } => match *function {
                 Core::Type { lit, .. } => Ok(Core::Id { lit }),
-                other => panic!("Expected type in parent, was {}", other),
+                _ => Err(Box::from(UnimplementedErr::new(ast, NO_CLASS_NAME))),
             },
             Core::Type { .. } => Ok(parent.clone()),
-            other => panic!("Expected type in parent, was {}", other),
+            _ => Err(Box::from(UnimplementedErr::new(ast, NO_CLASS_NAME))),
         })
         .collect::<GenResult<Vec<Core>>>()?;
 
@@ -204,7 +218,7 @@ fn extract_class(
             body: Box::from(body),
         })
     } else {
-        panic!("class name should be type")
+        Err(Box::from(UnimplementedErr::new(ast, NO_CLASS_NAME)))
     }
 }
 
